@@ -3894,8 +3894,15 @@ x86_Convert(struct _7zip *zip, uint8_t *data, size_t size)
 			bufferPos++;
 		}
 	}
-	zip->bcj_prevPosT = prevPosT;
-	zip->bcj_prevMask = prevMask;
+	/*
+	 * The next call starts with a fresh buffer: positions are relative
+	 * to the buffer, so only the mask, aged by the distance to the end
+	 * of what was converted, is carried over (as Bra86.c does).
+	 */
+	prevPosT = bufferPos - prevPosT;
+	zip->bcj_prevMask = (prevPosT > 3) ? 0 :
+	    ((prevMask << ((int)prevPosT - 1)) & 0x7);
+	zip->bcj_prevPosT = (size_t)0 - 1;
 	zip->bcj_ip += (uint32_t)bufferPos;
 	return (bufferPos);
 }
